@@ -371,12 +371,20 @@ def run(ctx):
             chk.ob(key, ok, "the printed program is accepted by the parser and has the same lines", b.loc(), det,
                    "Display for Asm evaluated abstractly, matched against grammar rule file")
     # the step from `line` pairs to the program's lines (the clauses above assume it is one-to-one)
+    # and the step from the matched text to the AST: the parser reads a printed instruction as the variant, operands and
+    # numbers that were printed (the clauses ast/*, numeric/value/hex and /dec - the bases the printer uses - of the parser
+    # rule C03; its other clauses are not reported here)
     from . import C03
+    orig_ob, orig_assume, orig_sample, orig_note = chk.ob, chk.assume, chk.sample, chk.note
+    keep = ("ast/", "numeric/value/hex", "numeric/value/dec", "program/", "label-check-propagates/")
+    chk.ob = lambda key, *a, **k: orig_ob(key, *a, **k) if str(key).startswith(keep) else None
+    chk.assume = chk.sample = chk.note = lambda *a, **k: None
     chk.prefix = "parse/"
     try:
-        C03.run(ctx, only_entry=True)
+        C03.run(ctx)
     finally:
         chk.prefix = ""
+        chk.ob, chk.assume, chk.sample, chk.note = orig_ob, orig_assume, orig_sample, orig_note
     chk.assume("labels and comments of a parsed program only contain text their grammar rules accept; "
                "comments are stored trimmed (C03)")
     chk.sample({"shape": "Mov (LBL), ((R2+))", "printed": "MOV (l_dstlbl), ((R2+))"})
